@@ -62,7 +62,15 @@ def run_histories(exe, pool, programs, env=None):
     return traces, crashes
 
 
-def check_trace(prog, trace, mdl, part, extra=False, idnmsgs=None, src="hist", fault=None):
+def failed_setup_reference(exe, env=None):
+    """(errcode, message) a fresh object reports after eav_setup with an undefined rfc."""
+    tr, crashes = run_histories(exe, [b"a@b.cd"], [["r77", "s", "m"]], env=env)
+    if not tr or tr[0] is None:
+        return None
+    return [tr[0][1][3], tr[0][2][2]]      # message of the 's' step, errcode of the 'm' step
+
+
+def check_trace(prog, trace, mdl, part, extra=False, idnmsgs=None, src="hist", fault=None, setup_ref=None):
     """Monitor one trace. fault: None or dict(code=.., buf=..) when a fault was planned in this history."""
     cnt = part["counters"]
     INV = mdl.E("INVALID_RFC")
@@ -90,7 +98,14 @@ def check_trace(prog, trace, mdl, part, extra=False, idnmsgs=None, src="hist", f
             else:
                 if sr != INV:
                     part["viol"].append(("setup/undefined-mode-return", wit, {"rfc": rfc, "ret": sr, "source": src}))
-                last_msg = None           # C15 says what the message is after a failed setup; C13 does not judge it
+                # after a failed setup eav_errstr reports the invalid-RFC condition - the same text a fresh object gives
+                last_msg, last_err = None, None
+                if setup_ref is not None:
+                    cnt["failed-setup.message-compared"] += 1
+                    if st[3] != setup_ref[0]:
+                        part["viol"].append(("errstr/after-failed-setup-differs-from-fresh-object", wit,
+                                             {"message": st[3], "fresh_object_message": setup_ref[0], "source": src}))
+                    last_msg, last_err = setup_ref[0], setup_ref[1]
         elif op[0] == "e":
             if kind == "skip":
                 if confirmed >= 0:
